@@ -41,6 +41,7 @@ Inductive rres :=
 
 Inductive event :=
 (* markers *)
+| EAddCalled                  (* Manager.Add(name, ...) is about to be called *)
 | EAdd (ok : bool)            (* Manager.Add(name, ...) returned; ok = no error *)
 | EReconnectCalled
 | EReconnectReturned (ok : bool)
@@ -65,7 +66,7 @@ Inductive event :=
 
 Definition is_marker (e : event) : bool :=
   match e with
-  | EAdd _ | EReconnectCalled | EReconnectReturned _ | ERemoveCalled | ERemoveReturned _
+  | EAddCalled | EAdd _ | EReconnectCalled | EReconnectReturned _ | ERemoveCalled | ERemoveReturned _
   | EHang | EStall => true
   | _ => false
   end.
@@ -109,6 +110,11 @@ Inductive pc :=
 
 Inductive rcst := RcNone | RcPending | RcFired.
 
+(** an Add(name) of the harness in flight: on a name that was not managed when
+    it was called (it will succeed; the retryMonitor goroutine may run before
+    the harness sees Add return) or on a managed name (it will be refused) *)
+Inductive addst := AddNone | AddFresh | AddDup.
+
 Record st := {
   s_pc : pc;
   s_rmc : bool;     (* Remove(name) has been called and has not returned *)
@@ -118,15 +124,16 @@ Record st := {
   s_hu : bool;      (* handleUpdates ran in this incarnation (a timeout goroutine may exist) *)
   s_stale : nat;    (* retryMonitor exits of earlier incarnations of this name *)
   s_phu : bool;     (* handleUpdates ran in an earlier incarnation of this name *)
+  s_add : addst;    (* harness Add(name) in flight *)
 }.
 
 Definition init : st :=
   {| s_pc := PIdle; s_rmc := false; s_cdone := false; s_sdone := false; s_rc := RcNone;
-     s_hu := false; s_stale := 0; s_phu := false |}.
+     s_hu := false; s_stale := 0; s_phu := false; s_add := AddNone |}.
 
 Definition set_pc (s : st) (p : pc) : st :=
   {| s_pc := p; s_rmc := s_rmc s; s_cdone := s_cdone s; s_sdone := s_sdone s; s_rc := s_rc s;
-     s_hu := s_hu s; s_stale := s_stale s; s_phu := s_phu s |}.
+     s_hu := s_hu s; s_stale := s_stale s; s_phu := s_phu s; s_add := s_add s |}.
 
 Definition managed (s : st) : bool :=
   match s_pc s with PIdle => false | _ => true end.
@@ -145,31 +152,31 @@ Definition tau (c : cfg) (s : st) : list st :=
   (* Remove: t.cancel() *)
   (if s_rmc s && negb (s_cdone s)
    then [{| s_pc := s_pc s; s_rmc := true; s_cdone := true; s_sdone := true; s_rc := s_rc s;
-            s_hu := s_hu s; s_stale := s_stale s; s_phu := s_phu s |}] else [])
+            s_hu := s_hu s; s_stale := s_stale s; s_phu := s_phu s; s_add := s_add s |}] else [])
   ++
   (* Reconnect issued through the API: t.reconnect() *)
   (match s_rc s with
    | RcPending =>
        [{| s_pc := s_pc s; s_rmc := s_rmc s; s_cdone := s_cdone s; s_sdone := true; s_rc := RcFired;
-           s_hu := s_hu s; s_stale := s_stale s; s_phu := s_phu s |}]
+           s_hu := s_hu s; s_stale := s_stale s; s_phu := s_phu s; s_add := s_add s |}]
    | _ => []
    end)
   ++
   (* the receive-timeout goroutine of a stream of this incarnation: m.Reconnect(name) *)
   (if c_timeout c && s_hu s && managed s && negb (s_sdone s)
    then [{| s_pc := s_pc s; s_rmc := s_rmc s; s_cdone := s_cdone s; s_sdone := true; s_rc := s_rc s;
-            s_hu := s_hu s; s_stale := s_stale s; s_phu := s_phu s |}] else [])
+            s_hu := s_hu s; s_stale := s_stale s; s_phu := s_phu s; s_add := s_add s |}] else [])
   ++
   (* DEFECT C13_1: a Reconnect-by-name left over from an earlier incarnation *)
   (if stale_reconnect_by_name && managed s && negb (s_sdone s)
    then (match s_stale s with
          | S k => [{| s_pc := s_pc s; s_rmc := s_rmc s; s_cdone := s_cdone s; s_sdone := true;
-                      s_rc := s_rc s; s_hu := s_hu s; s_stale := k; s_phu := s_phu s |}]
+                      s_rc := s_rc s; s_hu := s_hu s; s_stale := k; s_phu := s_phu s; s_add := s_add s |}]
          | O => []
          end)
         ++ (if c_timeout c && s_phu s
             then [{| s_pc := s_pc s; s_rmc := s_rmc s; s_cdone := s_cdone s; s_sdone := true;
-                     s_rc := s_rc s; s_hu := s_hu s; s_stale := s_stale s; s_phu := s_phu s |}]
+                     s_rc := s_rc s; s_hu := s_hu s; s_stale := s_stale s; s_phu := s_phu s; s_add := s_add s |}]
             else [])
    else [])
   ++
@@ -183,7 +190,7 @@ Definition tau (c : cfg) (s : st) : list st :=
           ctx, hence done iff ctx is. *)
        (if s_cdone s then [set_pc s PFinished] else [])
        ++ [{| s_pc := PMeta; s_rmc := s_rmc s; s_cdone := s_cdone s; s_sdone := s_cdone s;
-              s_rc := s_rc s; s_hu := s_hu s; s_stale := s_stale s; s_phu := s_phu s |}]
+              s_rc := s_rc s; s_hu := s_hu s; s_stale := s_stale s; s_phu := s_phu s; s_add := s_add s |}]
    | PMeta => if c_creds c then [] else [set_pc s (PConnCheck (c_hops c))]
    | PConnCheck lft =>
        match lft with
@@ -201,19 +208,36 @@ Definition tau (c : cfg) (s : st) : list st :=
 Definition vis (c : cfg) (s : st) (e : event) : list st :=
   match e with
   (* --- markers ------------------------------------------------------- *)
-  | EAdd true =>
-      match s_pc s with
-      | PIdle => [{| s_pc := PLoop; s_rmc := false; s_cdone := false; s_sdone := false;
-                     s_rc := RcNone; s_hu := false; s_stale := s_stale s; s_phu := s_phu s |}]
+  | EAddCalled =>
+      match s_add s with
+      | AddNone =>
+          match s_pc s with
+          | PIdle =>
+              (* Add inserts the target and starts retryMonitor before it returns *)
+              [{| s_pc := PLoop; s_rmc := false; s_cdone := false; s_sdone := false;
+                  s_rc := RcNone; s_hu := false; s_stale := s_stale s; s_phu := s_phu s;
+                  s_add := AddFresh |}]
+          | _ =>
+              [{| s_pc := s_pc s; s_rmc := s_rmc s; s_cdone := s_cdone s; s_sdone := s_sdone s;
+                  s_rc := s_rc s; s_hu := s_hu s; s_stale := s_stale s; s_phu := s_phu s;
+                  s_add := AddDup |}]
+          end
       | _ => []
       end
-  | EAdd false => if managed s then [s] else []
+  | EAdd ok =>
+      match s_add s, ok with
+      | AddFresh, true | AddDup, false =>
+          [{| s_pc := s_pc s; s_rmc := s_rmc s; s_cdone := s_cdone s; s_sdone := s_sdone s;
+              s_rc := s_rc s; s_hu := s_hu s; s_stale := s_stale s; s_phu := s_phu s;
+              s_add := AddNone |}]
+      | _, _ => []
+      end
   | EReconnectCalled =>
       match s_rc s with
       | RcNone => if managed s
                   then [{| s_pc := s_pc s; s_rmc := s_rmc s; s_cdone := s_cdone s;
                            s_sdone := s_sdone s; s_rc := RcPending; s_hu := s_hu s;
-                           s_stale := s_stale s; s_phu := s_phu s |}]
+                           s_stale := s_stale s; s_phu := s_phu s; s_add := s_add s |}]
                   else [s]
       | _ => []
       end
@@ -221,7 +245,7 @@ Definition vis (c : cfg) (s : st) (e : event) : list st :=
       match s_rc s with
       | RcFired => [{| s_pc := s_pc s; s_rmc := s_rmc s; s_cdone := s_cdone s;
                        s_sdone := s_sdone s; s_rc := RcNone; s_hu := s_hu s;
-                       s_stale := s_stale s; s_phu := s_phu s |}]
+                       s_stale := s_stale s; s_phu := s_phu s; s_add := s_add s |}]
       | _ => []
       end
   | EReconnectReturned false =>
@@ -233,7 +257,7 @@ Definition vis (c : cfg) (s : st) (e : event) : list st :=
       if s_rmc s then []
       else if managed s
            then [{| s_pc := s_pc s; s_rmc := true; s_cdone := s_cdone s; s_sdone := s_sdone s;
-                    s_rc := s_rc s; s_hu := s_hu s; s_stale := s_stale s; s_phu := s_phu s |}]
+                    s_rc := s_rc s; s_hu := s_hu s; s_stale := s_stale s; s_phu := s_phu s; s_add := s_add s |}]
            else [s]
   | ERemoveReturned true =>
       match s_pc s with
@@ -241,7 +265,7 @@ Definition vis (c : cfg) (s : st) (e : event) : list st :=
           if s_rmc s
           then [{| s_pc := PIdle; s_rmc := false; s_cdone := false; s_sdone := false;
                    s_rc := RcNone; s_hu := false; s_stale := S (s_stale s);
-                   s_phu := s_phu s || s_hu s |}]
+                   s_phu := s_phu s || s_hu s; s_add := s_add s |}]
           else []
       | _ => []
       end
@@ -270,7 +294,7 @@ Definition vis (c : cfg) (s : st) (e : event) : list st :=
           if ok
           then [{| s_pc := PRecv false; s_rmc := s_rmc s; s_cdone := s_cdone s;
                    s_sdone := s_sdone s; s_rc := s_rc s; s_hu := true;
-                   s_stale := s_stale s; s_phu := s_phu s |}]
+                   s_stale := s_stale s; s_phu := s_phu s; s_add := s_add s |}]
           else [set_pc s PDone]
       | _ => []
       end
@@ -355,10 +379,16 @@ Definition rc_eqb (a b : rcst) : bool :=
   | _, _ => false
   end.
 
+Definition add_eqb (a b : addst) : bool :=
+  match a, b with
+  | AddNone, AddNone | AddFresh, AddFresh | AddDup, AddDup => true
+  | _, _ => false
+  end.
+
 Definition st_eqb (a b : st) : bool :=
   pc_eqb (s_pc a) (s_pc b) && Bool.eqb (s_rmc a) (s_rmc b) && Bool.eqb (s_cdone a) (s_cdone b)
   && Bool.eqb (s_sdone a) (s_sdone b) && rc_eqb (s_rc a) (s_rc b) && Bool.eqb (s_hu a) (s_hu b)
-  && Nat.eqb (s_stale a) (s_stale b) && Bool.eqb (s_phu a) (s_phu b).
+  && Nat.eqb (s_stale a) (s_stale b) && Bool.eqb (s_phu a) (s_phu b) && add_eqb (s_add a) (s_add b).
 
 Definition mem (s : st) (l : list st) : bool := existsb (st_eqb s) l.
 
